@@ -23,7 +23,9 @@ import zlib
 LEVEL = "fault_enumeration"
 EXHAUSTIVE = ("every storage-event boundary of each executed transaction x 3 prefix variants for open files "
               "(all writes applied / flushed prefix only / one random intermediate cut per open file)")
-RULE = ("a case is one history: an un-monitored prelude of 0..7 merge=False commits (so that merge policies have "
+RULE = ("a case is one history: optional generation padding (empty commits so that the first committing monitored "
+        "transaction makes generation 10 in every odd history and generation 100 in every 8th) + "
+        "an un-monitored prelude of 0..7 merge=False commits (so that merge policies have "
         "segments to merge), then 3..6 monitored writer transactions drawn from {add, update, delete_by_term, "
         "delete_by_query, delete_document, add_field, remove_field} x commit kind {default(MERGE_SMALL), merge=False, "
         "optimize=True, mergetype=CLEAR} x compound {on, off} x finish {commit, cancel, exception inside with, "
@@ -59,14 +61,14 @@ FLOORS = {
               "flip.at_toc_rename": 5, "reach.merge_small": 1, "reach.optimize_merge": 1, "reach.clear": 1,
               "reach.loose_commit": 1, "reach.cancel_or_exception": 1, "variant.flushed.evals": 100,
               "variant.mid.evals": 2000, "model.crosscheck": 15, "lock.stale_file_present": 4000,
-              "realkill.traces_validated": 2},
+              "realkill.traces_validated": 2, "tx.generation_digit_boundary": 1},
     # calibrated on runs made while the shared machine had a load average of 50-70 on 16 cores (36-59 histories
     # finished inside the time cap); an idle machine finishes about twice as many
     "thorough": {"crash_points": 15000, "evaluations.snapshot": 30000, "tx.committed": 30, "tx.both_outcomes": 30,
                  "flip.at_toc_rename": 30, "reach.merge_small": 2, "reach.optimize_merge": 4, "reach.clear": 5,
                  "reach.loose_commit": 8, "reach.cancel_or_exception": 8, "variant.flushed.evals": 600,
                  "variant.mid.evals": 12000, "model.crosscheck": 60, "lock.stale_file_present": 30000,
-                 "realkill.traces_validated": 20},
+                 "realkill.traces_validated": 20, "tx.generation_digit_boundary": 6},
 }
 
 VOCAB = ["alfa", "bravo", "charlie", "delta", "echo", "foxtrot", "golf", "hotel"]
@@ -375,7 +377,12 @@ def gen_history(rng, idx, tier):
         txs.append(tx)
         model, fs = model_apply(model, fs, tx)
     create_monitored = (idx % 3 == 0)
-    return {"theme": theme, "create_monitored": create_monitored, "prelude": prelude, "txs": txs}
+    # generation padding: empty un-monitored commits right after create_in, so that the monitored transactions start just
+    # below a decimal digit boundary of the generation number (..9 -> 10, ..99 -> 100: file names are compared/ordered)
+    # odd histories: the first committing monitored transaction makes generation 10; every 8th: generation 100
+    target = 9 if idx % 2 == 1 else (99 if idx % 8 == 4 else None)
+    genpad = max(0, target - len(prelude)) if target is not None else 0
+    return {"theme": theme, "create_monitored": create_monitored, "prelude": prelude, "txs": txs, "genpad": genpad}
 
 
 # ----------------------------------------------------------------------
@@ -667,6 +674,9 @@ def run_history(ctx, idx):
         model, fs = {}, set()
         txs = [dict(create=True, ops=[], commit="create", finish="commit", compound=True, front="create")]
         monitored = [hist["create_monitored"]]
+        for _ in range(hist.get("genpad", 0)):
+            txs.append(dict(ops=[], commit="nomerge", finish="commit", compound=True, front="segment", pad=True))
+            monitored.append(False)
         for t in hist["prelude"]:
             txs.append(t)
             monitored.append(False)
@@ -735,7 +745,14 @@ def run_monitored_tx(ctx, tap, root, d, idx, j, tx, rng, wb, model, new_model, f
         shutil.rmtree(refdir, ignore_errors=True)
     segs_before = None
     if not tx.get("create"):
-        segs_before = len(index.open_dir(d)._segments())
+        _ix0 = index.open_dir(d)
+        segs_before = len(_ix0._segments())
+        gen_before = _ix0.latest_generation()
+        if tx["finish"] in ("commit", "with") or tx.get("front") == "buffered":
+            ctx.count("tx.monitored_committing")
+            if len(str(gen_before + 1)) > len(str(gen_before)):
+                ctx.count("tx.generation_digit_boundary")       # 9 -> 10 or 99 -> 100
+                ctx.count("tx.generation_digit_boundary.%d" % (gen_before + 1))
     info["segs_before"] = segs_before
     # model cross-check of S_old
     crosscheck(ctx, "S_old", ref_old, model, fs, wb)
